@@ -30,6 +30,11 @@ legs
               registers on pn532 / pn533 / arygonB) resp. the unchanged
               command (Type 2 Tag, all drivers), bad CRCs are never accepted
 
+  target-hist histories of sense + exchange with different target kinds on
+              one driver object, good and damaged CRCs, chip receiver model
+              that honours the CRC settings the driver programmed; outcome
+              per exchange and host commands as on a new device
+
 The CRC legs also require that calculate_crc / add_crc_* / check_crc_* leave
 the caller's buffer as it was (bytearray, bytes and list arguments).
 """
@@ -65,6 +70,11 @@ ASSUMPTIONS = [
     "labelled",
     "an extended-format frame with a length below 256 is treated as valid "
     "(the manual does not forbid it); it is labelled",
+    "leg target-hist: InListPassiveTarget of the PN53x firmware leaves "
+    "CIU_TxMode / CIU_RxMode at the technology's speed and framing with the "
+    "CRC enable bits set; the RC-S380 verifies and strips the received CRC "
+    "iff InSetProtocol check_crc is non-zero; NFC-F frames carry a marker "
+    "instead of a real CRC (no reference CRC-F in the harness)",
     "RC-S380 response validation is outside the property (its statement "
     "names PN53x/ACR122 responses); only RC-S380 command frames are checked",
 ]
@@ -1281,6 +1291,349 @@ def run_resend_tt2(case, ctx):
         ctx.nontrivial()
 
 
+# ============================================================ leg target-hist
+# Histories of activations and exchanges with DIFFERENT target kinds on ONE
+# driver object.  The existing legs give every case a new device and one kind
+# of target; a reader in use sees a Type 2 Tag, then a Type 4A card, then a
+# FeliCa card ... on the device it opened once.  Whether the chip verifies
+# and strips the CRC of a received frame is chip state that the driver sets
+# up per target kind (RC-S380: InSetProtocol check_crc; PN53x family: RxCRCEn
+# of CIU_RxMode, cleared after a Type 2 Tag was found), so the simulated chips
+# get an RF receiver model here that honours that state.
+HIST_KINDS = {
+    "pn531": ["T2T", "T4A", "T3T"], "arygonA": ["T2T", "T4A", "T3T"],
+    "pn532": ["T2T", "T4A", "T3T", "T4B"],
+    "pn533": ["T2T", "T4A", "T3T", "T4B"],
+    "rcs956": ["T2T", "T4A", "T3T", "T4B"],
+    "acr122": ["T2T", "T4A", "T3T", "T4B"],
+    "arygonB": ["T2T", "T4A", "T3T", "T4B"],
+    "rcs380": ["T2T", "T4A", "T3T", "T4B", "T3T-424", "DEP-A"],
+}
+H_UID = bytes.fromhex("04a1b2c3")
+H_SENS = {"T2T": b"\x44\x00", "T4A": b"\x04\x03", "DEP-A": b"\x04\x00"}
+H_SEL = {"T2T": b"\x00", "T4A": b"\x20", "DEP-A": b"\x40"}
+H_IDM = bytes.fromhex("02fe010203040506")
+H_SENSF = b"\x01" + H_IDM + bytes.fromhex("0f1e2d3c4b5a6978")
+H_SENSB = bytes.fromhex("50e8253eec00000011008185")
+H_TECH = {"T2T": "A", "T4A": "A", "DEP-A": "A", "T3T": "F", "T3T-424": "F",
+          "T4B": "B"}
+H_BRTY = {"T2T": "106A", "T4A": "106A", "DEP-A": "106A", "T3T": "212F",
+          "T3T-424": "424F", "T4B": "106B"}
+
+
+def air_verifies(tech, raw):
+    """does the frame on the air carry the CRC its technology demands (the
+    reference reading of ISO/IEC 14443-3; NFC-F frames are generated with a
+    marker instead of a CRC: good ones end with 'OK')"""
+    raw = bytes(raw)
+    if len(raw) < 3:
+        return False
+    if tech == "A":
+        return ref_crc.check_a(raw)
+    if tech == "B":
+        return ref_crc.check_b(raw)
+    return raw[-2:] == b"OK"
+
+
+def air_seal(tech, payload):
+    payload = bytes(payload)
+    if tech == "A":
+        return ref_crc.add_a(payload)
+    if tech == "B":
+        return ref_crc.add_b(payload)
+    return payload + b"OK"
+
+
+class AirWorld(object):
+    """the RF side of a history: which tag is in the field and what it
+    answers.  ``answers`` is consumed by the data exchanges; activation
+    commands are answered by the tag model itself."""
+
+    def __init__(self):
+        self.kind = None
+        self.answers = []
+        self.log = []           # one entry per frame the chip received
+
+    def partner(self, data):
+        """-> raw frame on the air (with CRC where the technology has one)
+        or None for silence"""
+        data, k = bytes(data), self.kind
+        tech = H_TECH.get(k)
+        if tech == "A":
+            if data in (b"\x26", b"\x52"):
+                return H_SENS[k]                        # no CRC
+            if data == b"\x93\x20":
+                bcc = H_UID[0] ^ H_UID[1] ^ H_UID[2] ^ H_UID[3]
+                return H_UID + bytes([bcc])             # no CRC
+            if data[:2] == b"\x93\x70":
+                return ref_crc.add_a(H_SEL[k])
+        if tech == "F" and data[1:2] == b"\x00" and len(data) == 6:
+            return air_seal("F", bytes([len(H_SENSF) + 1]) + H_SENSF)
+        if tech == "B" and data[:1] == b"\x05":
+            return ref_crc.add_b(H_SENSB)
+        if tech == "B" and data[:1] in (b"\xc2", b"\xca"):
+            return ref_crc.add_b(data)                  # S(DESELECT) response
+        if self.answers:
+            return bytes(self.answers.pop(0))
+        return None
+
+
+def air_model_rcs380(chip, world):
+    """RC-S380 receiver model on one Rcs380Chip instance: InSetRF and
+    InSetProtocol are remembered, InCommRF hands the command to the RF
+    partner and treats the answer according to check_crc (setting 2): off =
+    the frame as received, on = CRC verified and removed, CRC_ERROR (status
+    00000004h) without data if it does not verify; silence is
+    RECEIVE_TIMEOUT (00000080h)."""
+    chip.proto, chip.inrf = {}, None
+    inner = chip.respond
+
+    def respond(code, arg):
+        arg = bytes(arg)
+        if code == 0x00:
+            chip.inrf = arg
+            return b"\x00"
+        if code == 0x02:
+            for i in range(0, len(arg) - 1, 2):
+                chip.proto[arg[i]] = arg[i + 1]
+            return b"\x00"
+        if code == 0x04:
+            chip.rf_calls.append((code, arg))
+            tech = {3: "A", 4: "A", 5: "A", 1: "F", 2: "F", 7: "B", 8: "B",
+                    9: "B"}.get(chip.inrf[3] if chip.inrf else 0)
+            check = chip.proto.get(2, 0)
+            raw = world.partner(arg[2:])
+            world.log.append({"sent": arg[2:], "raw": raw, "check": check,
+                              "tech": tech})
+            if raw is None:
+                return struct.pack("<L", 0x80) + b"\x08"
+            if check:
+                if not air_verifies("B" if check == 2 else tech, raw):
+                    return struct.pack("<L", 0x04) + b"\x08"
+                raw = raw[:-2]
+            return struct.pack("<L", 0) + b"\x08" + raw
+        return inner(code, arg)
+    chip.respond = respond
+
+
+def air_model_pn53x(chip, world):
+    """PN53x-family receiver model on one Pn53xChip instance.
+    InListPassiveTarget finds the tag in the field and leaves CIU_TxMode /
+    CIU_RxMode at the technology's speed and framing with TxCRCEn / RxCRCEn
+    set (the firmware ran the anticollision with CRC).  InCommunicateThru
+    hands the command to the RF partner; RxCRCEn (bit 7 of CIU_RxMode) set:
+    CRC verified and removed, status 02h (CRC error) if it does not verify;
+    clear: the frame as received.  Silence is status 01h."""
+    inner = chip.respond
+    REG_TXMODE, REG_RXMODE = 0x6302, 0x6303
+
+    def respond(code, arg):
+        arg = bytes(arg)
+        k = world.kind
+        tech = H_TECH.get(k)
+        if code == 0x4A:
+            brty = arg[1]
+            if brty == 0 and tech == "A":
+                mode, found = 0x80, H_SENS[k][::-1] + H_SEL[k] + b"\x04" + H_UID
+            elif brty in (1, 2) and tech == "F" and \
+                    H_BRTY[k] == ("212F", "424F")[brty - 1]:
+                mode = 0x82 | brty << 4
+                found = bytes([len(H_SENSF) + 1]) + H_SENSF
+            elif brty == 3 and tech == "B":
+                mode, found = 0x83, H_SENSB + b"\x01\x01"
+            else:
+                return b"\x00"
+            chip.regs[REG_TXMODE] = chip.regs[REG_RXMODE] = mode
+            return b"\x01\x01" + found
+        if code == 0x42:
+            chip.rf_calls.append((code, arg))
+            rxmode = chip.regs.get(REG_RXMODE, 0)
+            rtech = {0: "A", 2: "F", 3: "B"}.get(rxmode & 3)
+            raw = world.partner(arg)
+            world.log.append({"sent": arg, "raw": raw, "check": rxmode >> 7,
+                              "tech": rtech})
+            if raw is None:
+                return b"\x01"
+            if rxmode & 0x80:
+                if not air_verifies(rtech, raw):
+                    return b"\x02"
+                raw = raw[:-2]
+            return b"\x00" + raw
+        return inner(code, arg)
+    chip.respond = respond
+
+
+def hist_device(drv):
+    dev, link = simchip.build(drv)
+    world = AirWorld()
+    (air_model_rcs380 if drv == "rcs380" else air_model_pn53x)(link.chip,
+                                                               world)
+    clf = simchip.frontend(dev)
+    link.arm()
+    return clf, link, world
+
+
+def hist_sense(clf, world, drv, kind):
+    """put a tag of ``kind`` into the field and let the frontend find it"""
+    world.kind, world.answers = kind, []
+    try:
+        t = clf.sense(nfc.clf.RemoteTarget(H_BRTY[kind]))
+    except Exception as e:
+        raise unexpected(e, detail="%s sense %s" % (drv, kind))
+    ok = t is not None and t.brty == H_BRTY[kind]
+    if ok and H_TECH[kind] == "A":
+        ok = t.sel_res is not None and bytes(t.sel_res) == H_SEL[kind]
+    if not ok:
+        raise HarnessError("%s: simulated %s tag was not found by sense(): %s"
+                           % (drv, kind, t))
+    return t
+
+
+H_CMDS = {
+    "T2T": [b"\x30\x04", b"\xa2\x04\x01\x02\x03\x04", b"\x3a\x00\x0f"],
+    "T4A": [bytes.fromhex("0200a4040007d276000085010100"),
+            bytes.fromhex("0300b000000f"), b"\xb2"],
+    "T4B": [bytes.fromhex("0200a4040007d276000085010100"),
+            bytes.fromhex("0300b000000f"), b"\xb2"],
+    "DEP-A": [bytes.fromhex("f006d40600000000")[:6],
+              bytes.fromhex("f005d4060100")],
+    "T3T": [b"\x10\x06" + H_IDM + bytes.fromhex("010b00018000"),
+            b"\x0a\x0c" + H_IDM],
+}
+H_CMDS["T3T-424"] = H_CMDS["T3T"]
+
+
+def damage(tech, payload, dmg):
+    """the frame on the air for a tag answer ``payload`` under ``dmg``"""
+    raw = bytearray(air_seal(tech, payload))
+    kind = dmg[0]
+    if kind == "none":
+        pass
+    elif kind == "flip":
+        bit = dmg[1] % (8 * len(raw))
+        raw[bit // 8] ^= 1 << (bit % 8)
+    elif kind == "swap":
+        raw[-2:] = raw[-2:][::-1]
+    elif kind == "other":       # the CRC of another technology
+        raw = bytearray({"A": ref_crc.add_b, "B": ref_crc.add_a,
+                         "F": lambda p: p + b"KO"}[tech](bytes(payload)))
+    elif kind == "tail":
+        raw[-2:] = bytes(dmg[1])[:2].ljust(2, b"\x00")
+    elif kind == "short":
+        raw = bytearray(bytes(dmg[1])[:2] or b"\x0a")
+    else:
+        raise HarnessError("unknown damage %r" % (dmg,))
+    return bytes(raw)
+
+
+_fresh_cmds = {}
+
+
+def fresh_exchange_cmds(drv, kind, cmd):
+    """host commands of one exchange of ``cmd`` with a ``kind`` target right
+    after a NEW device found it (good answer)"""
+    key = (drv, kind, bytes(cmd))
+    if key not in _fresh_cmds:
+        clf, link, world = hist_device(drv)
+        hist_sense(clf, world, drv, kind)
+        n0 = len(link.cmds)
+        world.answers = [air_seal(H_TECH[kind], b"\x01\x02\x03\x04")]
+        try:
+            clf.exchange(bytearray(cmd), 0.1)
+        except Exception:
+            pass        # the history cases judge the outcome
+        _fresh_cmds[key] = list(link.cmds[n0:])
+    return _fresh_cmds[key]
+
+
+def _show(cmds):
+    return " ".join("%02x:%s" % (c, a.hex()) for c, a in cmds)
+
+
+def run_target_hist(case, ctx):
+    drv = case["driver"]
+    fam = "rcs380" if drv == "rcs380" else "pn53x"
+    ctx.label("driver:" + drv, "steps:%d" % len(case["steps"]))
+    clf, link, world = hist_device(drv)
+    trail = []
+    kinds = []
+    for step in case["steps"]:
+        kind = step["kind"]
+        tech = H_TECH[kind]
+        ctx.set_class("%s/hist/%s" % (fam, kind))
+        hist_sense(clf, world, drv, kind)
+        kinds.append(kind)
+        for x in step["exch"]:
+            cmd = H_CMDS[kind][x["cmd"] % len(H_CMDS[kind])]
+            dmg = x["damage"]
+            if dmg[0] == "short" and kind != "T2T":
+                dmg = ["swap"]
+            raw = damage(tech, x["payload"], dmg)
+            if kind == "T2T" and len(raw) <= 2:
+                want = raw          # ACK / NAK pass through
+            elif air_verifies(tech, raw):
+                want = raw[:-2]
+            else:
+                want = None
+            trail.append("%s:%s" % (kind, dmg[0]))
+            what = "%s history %s: %s command %s, answer on the air %s" % (
+                drv, " ".join(trail), kind, cmd.hex(), raw.hex())
+            world.answers = [raw]
+            n0 = len(link.cmds)
+            try:
+                got = clf.exchange(bytearray(cmd), 0.1)
+            except nfc.clf.TransmissionError:
+                if want is not None:
+                    raise Violation("hist-rejects-good-crc", what)
+                ctx.label("rejected")
+            except Exception as e:
+                raise unexpected(e, detail=what)
+            else:
+                if want is None:
+                    raise Violation("hist-accepts-bad-crc", "%s returned %r"
+                                    % (what, got))
+                if got is None or bytes(got) != want:
+                    raise Violation("hist-payload-differs", "%s returned %r, "
+                                    "the tag sent %s" % (what, got,
+                                                         want.hex()))
+                ctx.label("accepted")
+            # what the chip was told for this exchange is what a new device
+            # tells it for this target kind
+            mine = list(link.cmds[n0:])
+            fresh = fresh_exchange_cmds(drv, kind, cmd)
+            if mine != fresh:
+                raise Violation("hist-settings-differ", "%s: host commands "
+                                "%s, a new device sends %s"
+                                % (what, _show(mine), _show(fresh)))
+    if len(set(kinds)) >= 2:
+        ctx.nontrivial()
+    ctx.note({"history": trail})
+
+
+_h_damage = st.one_of(
+    st.just(["none"]), st.just(["none"]), st.just(["none"]),
+    st.integers(0, 8 * 24).map(lambda b: ["flip", b]),
+    st.just(["swap"]), st.just(["other"]),
+    st.binary(min_size=2, max_size=2).map(lambda b: ["tail", b]),
+    st.sampled_from([b"\x0a", b"\x00", b"\x05", b"\x01\x02"]).map(
+        lambda b: ["short", b]))
+_h_exch = st.fixed_dictionaries({
+    "cmd": st.integers(0, 2),
+    "payload": st.one_of(st.binary(min_size=1, max_size=18),
+                         st.binary(min_size=16, max_size=16)),
+    "damage": _h_damage})
+
+
+@st.composite
+def gen_target_hist(draw):
+    drv = draw(st.sampled_from(list(TT2_DRIVERS) + ["rcs380", "rcs380"]))
+    kind = st.sampled_from(HIST_KINDS[drv])
+    steps = draw(st.lists(st.fixed_dictionaries({
+        "kind": kind, "exch": st.lists(_h_exch, min_size=1, max_size=2)}),
+        min_size=2, max_size=4))
+    return {"driver": drv, "steps": steps}
+
+
 _rf_fault = st.one_of(
     st.just(["lost"]), st.just(["lost"]),
     st.integers(0, 127).map(lambda b: ["flip", b]),
@@ -1400,6 +1753,26 @@ LEGS = [
              "burst, byte-swapped CRC, CRC_B instead of CRC_A, 1-2 byte "
              "ACK/NAK, random; non-trivial = the exchange reached the "
              "driver's CRC decision."),
+    Leg("target-hist", run=run_target_hist,
+        gen=lambda tier: gen_target_hist(), quick=2400, thorough=40000,
+        shards_quick=8, shards_thorough=16, nt_floor=0.5,
+        rule="histories on ONE driver object (pn531/pn532/pn533/rcs956/"
+             "acr122/arygonA/arygonB over the simulated PN53x, rcs380 over "
+             "the simulated RC-S380, each with an RF receiver model that "
+             "verifies and strips the CRC exactly when the chip state set by "
+             "the driver says so): 2-4 steps, each step puts a tag of a "
+             "generated kind (Type 2, Type 4A, Type 3 at 212/424, Type 4B, "
+             "NFC-DEP Type A as the driver supports) into the field, finds "
+             "it with ContactlessFrontend.sense() and runs 1-2 exchange() "
+             "calls whose answers carry a good CRC or are damaged (bit flip, "
+             "swapped CRC bytes, CRC of the other technology, replaced CRC, "
+             "1-2 byte frames). Oracle per exchange: a frame whose CRC fails "
+             "under the reference is never returned (TransmissionError), a "
+             "good one is returned as exactly the payload without CRC bytes "
+             "(Type 2 Tag ACK/NAK frames pass), and the host commands of the "
+             "exchange equal those a new device sends for the same target "
+             "kind and command. Non-trivial = at least two different target "
+             "kinds on the device."),
     Leg("resend", run=run_resend, gen=lambda tier: gen_resend(), quick=2400,
         thorough=40000, shards_quick=8, shards_thorough=16, nt_floor=0.35,
         rule="histories of 2-4 exchanges on one driver + simulated chip + "
